@@ -12,3 +12,31 @@ pub struct MDRawDirectory { pub stream_type: u32, pub location: MDLocationDescri
 #[derive(Clone, Copy)]
 pub struct MDMemoryDescriptor { pub start_of_memory_range: u64, pub memory: MDLocationDescriptor }
 }
+verus! {
+// scroll impls of the PODs (sizes pinned by kani/proofs/mem_writer.rs::vk_size_*; `ser` is the
+// little-endian field concatenation, uninterpreted here except for its length)
+pub uninterp spec fn ser_dirent(d: MDRawDirectory) -> Seq<u8>;
+pub uninterp spec fn ser_memdesc(d: MDMemoryDescriptor) -> Seq<u8>;
+impl scroll::ctx::SizeWith<scroll::Endian> for MDRawDirectory {
+    open spec fn spec_size() -> nat { 12 }
+    #[verifier::external_body]
+    fn size_with(ctx: &scroll::Endian) -> (r: usize) { 12 }
+}
+impl scroll::ctx::TryIntoCtx<scroll::Endian> for MDRawDirectory {
+    type Error = scroll::Error;
+    open spec fn ser(self) -> Seq<u8> { ser_dirent(self) }
+    #[verifier::external_body]
+    fn try_into_ctx(self, dst: &mut [u8], ctx: scroll::Endian) -> (r: Result<usize, scroll::Error>) { unimplemented!() }
+}
+impl scroll::ctx::SizeWith<scroll::Endian> for MDMemoryDescriptor {
+    open spec fn spec_size() -> nat { 16 }
+    #[verifier::external_body]
+    fn size_with(ctx: &scroll::Endian) -> (r: usize) { 16 }
+}
+impl scroll::ctx::TryIntoCtx<scroll::Endian> for MDMemoryDescriptor {
+    type Error = scroll::Error;
+    open spec fn ser(self) -> Seq<u8> { ser_memdesc(self) }
+    #[verifier::external_body]
+    fn try_into_ctx(self, dst: &mut [u8], ctx: scroll::Endian) -> (r: Result<usize, scroll::Error>) { unimplemented!() }
+}
+}
